@@ -215,7 +215,7 @@ func contexts(lex []reflex.Lexeme) []string {
 
 // Transformation names, in the order of the property's list.
 var transformations = []string{"crlf", "lf", "indent-none", "indent-tab", "indent-blanks", "trailing-blanks",
-	"blank-line", "comment-line", "block-comment-line", "final-nl-absent", "final-nl-present",
+	"blank-line", "remove-blank-line", "comment-line", "block-comment-line", "final-nl-absent", "final-nl-present",
 	"block-comment", "line-comment", "remove-blank", "add-blank"}
 
 func findSites(src string, lex []reflex.Lexeme) []site {
@@ -268,6 +268,16 @@ func findSites(src string, lex []reflex.Lexeme) []site {
 			add("line-comment", k, i, edit{l.Off, 0, " // c"}, false, false)
 			after := l.Off + len(l.Text)
 			add("blank-line", k, i+1, edit{after, 0, eol}, true, false)
+			// the inverse of blank-line: drop an existing empty (or blanks-only) line
+			if j := i - 1; true {
+				if j >= 0 && lex[j].Type == reflex.Space {
+					j--
+				}
+				if j >= 0 && lex[j].Type == reflex.Newline {
+					from := lex[j].Off + len(lex[j].Text)
+					add("remove-blank-line", k, i, edit{from, after - from, ""}, true, false)
+				}
+			}
 			add("comment-line", k, i+1, edit{after, 0, "// c" + eol}, true, false)
 			add("block-comment-line", k, i+1, edit{after, 0, "/* c */" + eol}, true, false)
 			lineStart(i + 1)
